@@ -533,8 +533,15 @@ def run_unit(unit, tier):
         return res
     if _TOP is None:
         spec = {'classes': [], 'root': 'any'}
-        _TOP = (yatiml.dumps_json_function(), loadcase.Case(spec))
-    dj, anycase = _TOP
+        dump_json = yatiml.dump_json_function()
+
+        def via_stream(v, indent=None, ensure_ascii=True):
+            # the property speaks of dumps_json AND dump_json: the same oracles on what dump_json writes to a stream
+            buf = io.StringIO()
+            dump_json(v, buf, indent=indent, ensure_ascii=ensure_ascii)
+            return buf.getvalue()
+        _TOP = (yatiml.dumps_json_function(), loadcase.Case(spec), via_stream)
+    dj, anycase, dj_stream = _TOP
     if unit[0] == 'trees':
         _, n, shard, nshards = unit
         inds = INDENTS if n <= b['tree_nodes_all_indents'] else [None, 2]
@@ -563,6 +570,7 @@ def run_unit(unit, tier):
                 for ea in (True, False):
                     res.transitions += 1
                     check_json(dj, v, ind, ea, res, 'string-' + kpos, {'string': s, 'pos': kpos}, anycase)
+                    check_json(dj_stream, v, ind, ea, res, 'stream-string-' + kpos, {'string': s, 'pos': kpos, 'stream': True}, anycase)
             res.nontrivial += 1
         res.sample({'string': first, 'json': dj({'k': first})}, 1)
         return res
@@ -633,6 +641,13 @@ def replay(payload):
     elif 'string' in d:
         s = d['string']
         v = {'k': [s]} if d['pos'] == 'value' else {s: 1, 'z': [s]}
+        if d.get('stream'):
+            dump_json = yatiml.dump_json_function()
+
+            def dj(v, indent=None, ensure_ascii=True):     # noqa: F811
+                buf = io.StringIO()
+                dump_json(v, buf, indent=indent, ensure_ascii=ensure_ascii)
+                return buf.getvalue()
         check_json(dj, v, payload['indent'], payload['ensure_ascii'], res, payload['fam'], d, anycase)
     else:
         for name, spec, maker, reloadable in class_families():
